@@ -30,6 +30,18 @@ func HandleFetchForUIDs(deps ServerDeps, conn net.Conn, tag string, uids []int, 
 		return nil
 	}
 
+	// UID FETCH always reports the UID (RFC 3501 6.4.8), also when the item
+	// list only contains "UID" inside another word
+	hasUID := false
+	for _, it := range parseFetchItems(items) {
+		if it.name == "UID" && !it.hasSection {
+			hasUID = true
+		}
+	}
+	if !hasUID {
+		items = "UID " + items
+	}
+
 	for _, uid := range uids {
 		// Get message details by UID
 		var messageID int64
@@ -194,9 +206,6 @@ func processFetchForMessage(deps ServerDeps, conn net.Conn, messageID, uid int64
 		return rawMsg
 	}
 
-	// Offsets found in itemsUpper are used to slice items below, so the copy
-	// must keep the byte length: upper-case the ASCII letters only.
-	itemsUpper := asciiUpper(items)
 	responseParts := []string{}
 	// A literal-valued item is one response part: its name, the octet count
 	// and the data stay together, so every item is followed by its own value
@@ -204,356 +213,157 @@ func processFetchForMessage(deps ServerDeps, conn net.Conn, messageID, uid int64
 	literalPart := func(name, data string) string {
 		return fmt.Sprintf("%s {%d}\r\n%s", name, len(data), data)
 	}
-
-	if strings.Contains(itemsUpper, "UID") {
-		responseParts = append(responseParts, fmt.Sprintf("UID %d", uid))
-	}
-	if strings.Contains(itemsUpper, "FLAGS") {
-		if flags == "" {
-			flags = "()"
-		} else {
-			flags = fmt.Sprintf("(%s)", flags)
+	// Every requested item is answered once, under its own name, in the order
+	// of the request; an item requested twice is answered once.
+	answered := map[string]bool{}
+	add := func(label, part string) {
+		if !answered[label] {
+			answered[label] = true
+			responseParts = append(responseParts, part)
 		}
-		responseParts = append(responseParts, fmt.Sprintf("FLAGS %s", flags))
 	}
-	if strings.Contains(itemsUpper, "INTERNALDATE") {
-		var internalDate time.Time
-		// Query message_mailbox for internal_date using new schema
-		query := "SELECT internal_date FROM message_mailbox WHERE message_id = ? AND mailbox_id = ?"
-		err := targetDB.QueryRow(query, messageID, state.SelectedMailboxID).Scan(&internalDate)
-
-		var dateStr string
-		if err != nil || internalDate.IsZero() {
-			dateStr = "01-Jan-1970 00:00:00 +0000"
-		} else {
-			// Format as RFC 3501: "02-Jan-2006 15:04:05 -0700"
-			dateStr = internalDate.Format("02-Jan-2006 15:04:05 -0700")
+	// A literal-valued section: the item's own range <start.length> selects
+	// the octets and its origin is announced as <start>.
+	addSection := func(label string, it fetchItem, data string) {
+		if it.partial {
+			data = slicePartial(data, it.start, it.length)
+			label = fmt.Sprintf("%s<%d>", label, it.start)
 		}
-		responseParts = append(responseParts, fmt.Sprintf("INTERNALDATE \"%s\"", dateStr))
+		add(label, literalPart(label, data))
 	}
-	if strings.Contains(itemsUpper, "RFC822.SIZE") {
+	// Header section and text of the message: the header section ends with the
+	// blank line (RFC 3501 6.4.5), so that BODY[HEADER] followed by BODY[TEXT]
+	// is the whole message
+	splitMessage := func() (headers, body string) {
 		msg := loadRawMsg()
-		responseParts = append(responseParts, fmt.Sprintf("RFC822.SIZE %d", len(msg)))
+		headerEnd := strings.Index(msg, "\r\n\r\n")
+		if headerEnd == -1 {
+			return msg, ""
+		}
+		return msg[:headerEnd+4], msg[headerEnd+4:]
 	}
 
-	// Handle ENVELOPE
-	if strings.Contains(itemsUpper, "ENVELOPE") {
-		msg := loadRawMsg()
-		envelope := response.BuildEnvelope(msg)
-		responseParts = append(responseParts, envelope)
-	}
-
-	// Handle BODYSTRUCTURE
-	if strings.Contains(itemsUpper, "BODYSTRUCTURE") {
-		msg := loadRawMsg()
-		bodyStructure := response.BuildBodyStructure(msg)
-		fmt.Printf("DEBUG FETCH: BODYSTRUCTURE for message %d: %s\n", messageID, bodyStructure)
-		responseParts = append(responseParts, bodyStructure)
-	}
-
-	// Handle BODY (non-extensible BODYSTRUCTURE)
-	if strings.Contains(itemsUpper, "BODY") && !strings.Contains(itemsUpper, "BODY[") && !strings.Contains(itemsUpper, "BODY.PEEK") && !strings.Contains(itemsUpper, "BODYSTRUCTURE") {
-		// BODY is the non-extensible form of BODYSTRUCTURE
-		msg := loadRawMsg()
-		bodyStructure := response.BuildBodyStructure(msg)
-		// Replace BODYSTRUCTURE with BODY in the response
-		bodyStructure = strings.Replace(bodyStructure, "BODYSTRUCTURE", "BODY", 1)
-		responseParts = append(responseParts, bodyStructure)
-	}
-
-	// Handle numeric BODY sections like BODY.PEEK[1], BODY[2], BODY[1.MIME] with optional partial ranges
-	if strings.Contains(itemsUpper, "BODY[") || strings.Contains(itemsUpper, "BODY.PEEK[") {
-		// Lazy-load parts for this message if needed
-		var parts []map[string]interface{}
-		loadParts := func() {
-			if parts == nil {
-				p, err := db.GetMessageParts(targetDB, messageID)
-				if err == nil {
-					parts = p
-				}
+	// Lazy-load parts for this message if needed
+	var parts []map[string]interface{}
+	loadParts := func() {
+		if parts == nil {
+			p, err := db.GetMessageParts(targetDB, messageID)
+			if err == nil {
+				parts = p
 			}
 		}
+	}
 
-		orig := items
-		upper := itemsUpper
-		pos := 0
-		for {
-			idxPeek := strings.Index(upper[pos:], "BODY.PEEK[")
-			idxBody := strings.Index(upper[pos:], "BODY[")
-			if idxPeek == -1 && idxBody == -1 {
-				break
-			}
-			offset := pos
-			prefix := "BODY["
-			if idxPeek != -1 && (idxBody == -1 || idxPeek < idxBody) {
-				offset += idxPeek
-				prefix = "BODY.PEEK["
-			} else {
-				offset += idxBody
-			}
-
-			// Find closing bracket
-			start := offset + len(prefix)
-			end := strings.Index(upper[start:], "]")
-			if end == -1 {
-				break
-			}
-			end = start + end
-
-			sectionSpec := orig[start:end] // preserve original case/format for echo
-			sectionUpper := asciiUpper(sectionSpec)
-
-			// Only handle numeric sections here; others handled elsewhere
-			if len(sectionSpec) > 0 && sectionSpec[0] >= '0' && sectionSpec[0] <= '9' {
-				// Determine if .MIME requested
+	for _, it := range parseFetchItems(items) {
+		switch {
+		case it.hasSection && (it.name == "BODY" || it.name == "BODY.PEEK"):
+			sectionUpper := asciiUpper(it.section)
+			switch {
+			case sectionUpper == "":
+				addSection("BODY[]", it, loadRawMsg())
+			case sectionUpper == "TEXT":
+				_, body := splitMessage()
+				addSection("BODY[TEXT]", it, body)
+			case sectionUpper == "HEADER":
+				headers, _ := splitMessage()
+				addSection("BODY[HEADER]", it, headers)
+			case sectionUpper == "HEADER.FIELDS" || strings.HasPrefix(sectionUpper, "HEADER.FIELDS ") || strings.HasPrefix(sectionUpper, "HEADER.FIELDS("):
+				requestedHeaders := headerFieldNames(it.section)
+				headersStr := selectHeaderFields(loadRawMsg(), requestedHeaders)
+				// Match the exact format the client requested
+				fieldList := strings.Join(requestedHeaders, " ")
+				addSection(fmt.Sprintf("BODY[HEADER.FIELDS (%s)]", fieldList), it, headersStr)
+			case it.section[0] >= '0' && it.section[0] <= '9':
+				// Numeric sections like BODY.PEEK[1], BODY[2], BODY[1.MIME]
+				sectionSpec := it.section // preserve original case/format for echo
 				wantMIME := false
 				partNumStr := sectionSpec
-				if strings.Contains(sectionUpper, ".MIME") {
+				if idx := strings.Index(sectionUpper, ".MIME"); idx != -1 {
 					wantMIME = true
-					partNumStr = sectionSpec[:strings.Index(sectionUpper, ".MIME")]
+					partNumStr = sectionSpec[:idx]
 				}
 				// Parse part number - support nested parts like "1.2"
 				partPath, err := parsePartNumberPath(partNumStr)
-				if err == nil && len(partPath) > 0 {
-					loadParts()
-					// Debug: Show parts structure
-					fmt.Printf("DEBUG FETCH: Looking up part %v for message %d, have %d parts\n", partPath, messageID, len(parts))
-					for i, p := range parts {
-						fmt.Printf("  Part %d: id=%v, part_number=%v, parent_part_id=%v, content_type=%v\n", 
-							i, p["id"], p["part_number"], p["parent_part_id"], p["content_type"])
-					}
-					
-					// Map IMAP part number path to database part
-					target := mapIMAPPartPathToDBPart(parts, partPath)
-					
-					fmt.Printf("DEBUG FETCH: mapIMAPPartPathToDBPart returned: %v\n", target != nil)
+				if err != nil || len(partPath) == 0 {
+					continue
+				}
+				loadParts()
+				// Map IMAP part number path to database part
+				target := mapIMAPPartPathToDBPart(parts, partPath)
 
-					payload := ""
-					if target != nil {
-						// Check if this is a multipart container (has no body)
-						contentType, _ := target["content_type"].(string)
-						isMultipart := strings.HasPrefix(contentType, "multipart/")
+				payload := ""
+				if target != nil {
+					// Check if this is a multipart container (has no body)
+					contentType, _ := target["content_type"].(string)
+					isMultipart := strings.HasPrefix(contentType, "multipart/")
 
-						if wantMIME {
-							// Build MIME headers for the part
-							hdr := buildMIMEHeadersForPart(target)
-							payload = hdr
-						} else if isMultipart {
-							// For multipart containers, extract from the full reconstructed message
-							fullMsg := loadRawMsg()
-							payload = extractBodySectionByPath(fullMsg, partPath)
-						} else {
-							// Part body only - for non-multipart parts
-							// (blobs are in the shared DB or in S3)
-							content, err := parser.ReadPartContent(deps.GetSharedDB(), target, deps.GetS3Storage())
-							if err != nil {
-								return err
-							}
-							payload = content
-						}
-					}
-
-					// Check for partial spec immediately following the closing bracket
-					partialStartPos := -1
-					after := end + 1
-					if after < len(upper) && upper[after] == '<' {
-						close := strings.Index(upper[after:], ">")
-						if close != -1 {
-							rangeSpec := upper[after+1 : after+close]
-							var startPos, length int
-							if _, err := fmt.Sscanf(rangeSpec, "%d.%d", &startPos, &length); err == nil {
-								partialStartPos = startPos
-								payload = slicePartial(payload, startPos, length)
-							}
-							// Advance parser position past the range
-							end = after + close
-						}
-					}
-
-					// Append response
-					if payload == "" {
-						responseParts = append(responseParts, fmt.Sprintf("BODY[%s] NIL", sectionSpec))
+					if wantMIME {
+						// Build MIME headers for the part
+						payload = buildMIMEHeadersForPart(target)
+					} else if isMultipart {
+						// For multipart containers, extract from the full reconstructed message
+						payload = extractBodySectionByPath(loadRawMsg(), partPath)
 					} else {
-						// Include partial start position in response if this was a partial fetch
-						if partialStartPos >= 0 {
-							responseParts = append(responseParts, literalPart(fmt.Sprintf("BODY[%s]<%d>", sectionSpec, partialStartPos), payload))
-						} else {
-							responseParts = append(responseParts, literalPart(fmt.Sprintf("BODY[%s]", sectionSpec), payload))
+						// Part body only - for non-multipart parts
+						// (blobs are in the shared DB or in S3)
+						content, err := parser.ReadPartContent(deps.GetSharedDB(), target, deps.GetS3Storage())
+						if err != nil {
+							return err
 						}
+						payload = content
 					}
 				}
-			}
-
-			// Move past this section for next search
-			pos = end + 1
-		}
-	}
-
-	// Handle multiple body parts - process each separately
-	// Handle BODY.PEEK[HEADER.FIELDS (...)] or BODY[HEADER.FIELDS (...)] - specific header fields
-	if strings.Contains(itemsUpper, "BODY.PEEK[HEADER.FIELDS") || strings.Contains(itemsUpper, "BODY[HEADER.FIELDS") {
-		start := strings.Index(itemsUpper, "BODY.PEEK[HEADER.FIELDS")
-		if start == -1 {
-			start = strings.Index(itemsUpper, "BODY[HEADER.FIELDS")
-		}
-
-		// Extract requested header field names
-		requestedHeaders := []string{"FROM", "TO", "CC", "BCC", "SUBJECT", "DATE", "MESSAGE-ID", "PRIORITY", "X-PRIORITY", "REFERENCES", "NEWSGROUPS", "IN-REPLY-TO", "CONTENT-TYPE", "REPLY-TO"}
-		if start != -1 {
-			isPeek := strings.Contains(itemsUpper, "BODY.PEEK[HEADER.FIELDS")
-			prefixLen := len("BODY[HEADER.FIELDS (")
-			if isPeek {
-				prefixLen = len("BODY.PEEK[HEADER.FIELDS (")
-			}
-
-			// A truncated item such as BODY[HEADER.FIELDS] has no field list:
-			// the default header set is used.
-			fieldsStr := ""
-			if start+prefixLen <= len(items) {
-				fieldsStr = items[start+prefixLen:]
-			}
-			closeParen := strings.Index(fieldsStr, ")")
-			if closeParen != -1 {
-				fieldsStr = fieldsStr[:closeParen]
-				fields := strings.Fields(fieldsStr)
-				if len(fields) > 0 {
-					requestedHeaders = []string{}
-					for _, f := range fields {
-						requestedHeaders = append(requestedHeaders, strings.ToUpper(strings.TrimSpace(f)))
-					}
+				label := fmt.Sprintf("BODY[%s]", sectionSpec)
+				if it.partial {
+					payload = slicePartial(payload, it.start, it.length)
+					label = fmt.Sprintf("%s<%d>", label, it.start)
+				}
+				if payload == "" {
+					add(label, label+" NIL")
+				} else {
+					add(label, literalPart(label, payload))
 				}
 			}
-		}
+		case it.hasSection:
+			// no other item takes a section
+		case it.name == "UID":
+			add("UID", fmt.Sprintf("UID %d", uid))
+		case it.name == "FLAGS":
+			add("FLAGS", fmt.Sprintf("FLAGS (%s)", flags))
+		case it.name == "INTERNALDATE":
+			var internalDate time.Time
+			// Query message_mailbox for internal_date using new schema
+			query := "SELECT internal_date FROM message_mailbox WHERE message_id = ? AND mailbox_id = ?"
+			err := targetDB.QueryRow(query, messageID, state.SelectedMailboxID).Scan(&internalDate)
 
-		// Extract only the requested headers from the message
-		msg := loadRawMsg()
-		headersMap := map[string]string{}
-		lines := strings.Split(msg, "\r\n")
-		currentHeader := ""
-		for _, line := range lines {
-			if line == "" {
-				break // End of headers
+			var dateStr string
+			if err != nil || internalDate.IsZero() {
+				dateStr = "01-Jan-1970 00:00:00 +0000"
+			} else {
+				// Format as RFC 3501: "02-Jan-2006 15:04:05 -0700"
+				dateStr = internalDate.Format("02-Jan-2006 15:04:05 -0700")
 			}
-			// Check if this is a continuation line (starts with space or tab)
-			if len(line) > 0 && (line[0] == ' ' || line[0] == '\t') {
-				if currentHeader != "" {
-					headersMap[currentHeader] += "\r\n" + line
-				}
-				continue
-			}
-			// New header line
-			colonIdx := strings.Index(line, ":")
-			if colonIdx != -1 {
-				headerName := strings.ToUpper(strings.TrimSpace(line[:colonIdx]))
-				for _, h := range requestedHeaders {
-					if headerName == h {
-						currentHeader = h
-						headersMap[h] = line
-						break
-					}
-				}
-			}
+			add("INTERNALDATE", fmt.Sprintf("INTERNALDATE \"%s\"", dateStr))
+		case it.name == "RFC822.SIZE":
+			add("RFC822.SIZE", fmt.Sprintf("RFC822.SIZE %d", len(loadRawMsg())))
+		case it.name == "ENVELOPE":
+			add("ENVELOPE", response.BuildEnvelope(loadRawMsg()))
+		case it.name == "BODYSTRUCTURE":
+			add("BODYSTRUCTURE", response.BuildBodyStructure(loadRawMsg()))
+		case it.name == "BODY":
+			// BODY is the non-extensible form of BODYSTRUCTURE
+			bodyStructure := response.BuildBodyStructure(loadRawMsg())
+			add("BODY", strings.Replace(bodyStructure, "BODYSTRUCTURE", "BODY", 1))
+		case it.name == "RFC822.HEADER":
+			headers, _ := splitMessage()
+			add("RFC822.HEADER", literalPart("RFC822.HEADER", headers))
+		case it.name == "RFC822.TEXT":
+			_, body := splitMessage()
+			add("RFC822.TEXT", literalPart("RFC822.TEXT", body))
+		case it.name == "RFC822" || it.name == "RFC822.PEEK":
+			// RFC822 is equivalent to BODY[] and is answered as BODY[]
+			add("BODY[]", literalPart("BODY[]", loadRawMsg()))
 		}
-
-		// Build response with requested headers in order
-		var headerLines []string
-		for _, h := range requestedHeaders {
-			if val, ok := headersMap[h]; ok {
-				headerLines = append(headerLines, val)
-			}
-		}
-		headersStr := strings.Join(headerLines, "\r\n")
-		if len(headersStr) > 0 {
-			headersStr += "\r\n"
-		}
-		headersStr += "\r\n" // Final blank line
-		// Match the exact format the client requested
-		fieldList := strings.Join(requestedHeaders, " ")
-		responseParts = append(responseParts, literalPart(fmt.Sprintf("BODY[HEADER.FIELDS (%s)]", fieldList), headersStr))
-	}
-
-	// Handle BODY.PEEK[TEXT] or BODY[TEXT] - message body only (can be combined with other parts)
-	if strings.Contains(itemsUpper, "BODY.PEEK[TEXT]") || strings.Contains(itemsUpper, "BODY[TEXT]") {
-		msg := loadRawMsg()
-		headerEnd := strings.Index(msg, "\r\n\r\n")
-		body := ""
-		if headerEnd != -1 {
-			body = msg[headerEnd+4:] // skip the double CRLF
-		}
-
-		// Check for partial fetch like BODY.PEEK[TEXT]<0.2048>
-		partialStart := 0
-		partialLength := len(body)
-		if strings.Contains(itemsUpper, "<") && strings.Contains(itemsUpper, ">") {
-			startIdx := strings.Index(itemsUpper, "<")
-			endIdx := strings.Index(itemsUpper, ">")
-			if startIdx != -1 && endIdx > startIdx {
-				partialSpec := itemsUpper[startIdx+1 : endIdx]
-				_, _ = fmt.Sscanf(partialSpec, "%d.%d", &partialStart, &partialLength)
-				body = slicePartial(body, partialStart, partialLength)
-			}
-		}
-
-		responseParts = append(responseParts, literalPart("BODY[TEXT]", body))
-	}
-
-	// Handle BODY.PEEK[HEADER] or BODY[HEADER] - all headers (check it's not HEADER.FIELDS)
-	if (strings.Contains(itemsUpper, "BODY.PEEK[HEADER]") || strings.Contains(itemsUpper, "BODY[HEADER]")) &&
-		!strings.Contains(itemsUpper, "HEADER.FIELDS") {
-		msg := loadRawMsg()
-		headerEnd := strings.Index(msg, "\r\n\r\n")
-		headers := msg
-		if headerEnd != -1 {
-			// The header section ends with the blank line (RFC 3501 6.4.5), so that
-			// BODY[HEADER] followed by BODY[TEXT] is the whole message
-			headers = msg[:headerEnd+4]
-		}
-		// Partial fetch like BODY.PEEK[HEADER]<0.2048>
-		label := "BODY[HEADER]"
-		if start, length, ok := partialAfter(itemsUpper, "BODY.PEEK[HEADER]", "BODY[HEADER]"); ok {
-			headers = slicePartial(headers, start, length)
-			label = fmt.Sprintf("BODY[HEADER]<%d>", start)
-		}
-		responseParts = append(responseParts, literalPart(label, headers))
-	}
-
-	// Handle RFC822.HEADER - return only the header portion
-	if strings.Contains(itemsUpper, "RFC822.HEADER") {
-		msg := loadRawMsg()
-		headerEnd := strings.Index(msg, "\r\n\r\n")
-		headers := msg
-		if headerEnd != -1 {
-			// The header section ends with the blank line (RFC 3501 6.4.5), so that
-			// BODY[HEADER] followed by BODY[TEXT] is the whole message
-			headers = msg[:headerEnd+4]
-		}
-		responseParts = append(responseParts, literalPart("RFC822.HEADER", headers))
-	}
-
-	// Handle RFC822.TEXT - body text only (excluding headers)
-	if strings.Contains(itemsUpper, "RFC822.TEXT") {
-		msg := loadRawMsg()
-		headerEnd := strings.Index(msg, "\r\n\r\n")
-		body := ""
-		if headerEnd != -1 {
-			body = msg[headerEnd+4:] // skip the double CRLF
-		}
-		responseParts = append(responseParts, literalPart("RFC822.TEXT", body))
-	}
-
-	// Handle BODY[] / BODY.PEEK[] / RFC822 / RFC822.PEEK - full message
-	if strings.Contains(itemsUpper, "BODY[]") || strings.Contains(itemsUpper, "BODY.PEEK[]") ||
-		strings.Contains(itemsUpper, "RFC822.PEEK") ||
-		(strings.Contains(itemsUpper, "RFC822") && !strings.Contains(itemsUpper, "RFC822.SIZE") &&
-			!strings.Contains(itemsUpper, "RFC822.HEADER") && !strings.Contains(itemsUpper, "RFC822.TEXT") && !strings.Contains(itemsUpper, "RFC822.PEEK")) {
-		msg := loadRawMsg()
-		// Partial fetch like BODY.PEEK[]<0.2048>
-		label := "BODY[]"
-		if start, length, ok := partialAfter(itemsUpper, "BODY.PEEK[]", "BODY[]"); ok {
-			msg = slicePartial(msg, start, length)
-			label = fmt.Sprintf("BODY[]<%d>", start)
-		}
-		responseParts = append(responseParts, literalPart(label, msg))
 	}
 
 	// The message could not be reconstructed: every item taken from it is wrong
@@ -568,6 +378,144 @@ func processFetchForMessage(deps ServerDeps, conn net.Conn, messageID, uid int64
 		deps.SendResponse(conn, fmt.Sprintf("* %d FETCH (FLAGS ())", seqNum))
 	}
 	return nil
+}
+
+// fetchItem is one data item of a FETCH request, e.g. UID, BODYSTRUCTURE or
+// BODY.PEEK[HEADER.FIELDS (DATE FROM)]<0.2048>.
+type fetchItem struct {
+	name       string // item name without section, ASCII upper-cased: UID, BODY, BODY.PEEK, RFC822.SIZE ...
+	hasSection bool   // a section specification [...] follows the name
+	section    string // the text between the brackets, as written
+	partial    bool   // a well-formed range <start.length> follows the section
+	start      int
+	length     int
+}
+
+// parseFetchItems splits a FETCH item list into its items. Items are
+// separated by spaces; a section specification [...] belongs to its item with
+// everything it contains (HEADER.FIELDS carries a parenthesised list with
+// spaces), parentheses outside a section only group the list. Every byte
+// string yields a (possibly empty) list: there is no error case, text that is
+// no known item is skipped by the caller.
+func parseFetchItems(items string) []fetchItem {
+	var out []fetchItem
+	inSection := false
+	start := 0 // start of the current token; start <= i <= len(items) throughout
+	flush := func(end int) {
+		if start < end {
+			out = append(out, parseFetchItem(items[start:end]))
+		}
+	}
+	for i := 0; i < len(items); i++ {
+		c := items[i]
+		switch {
+		case inSection:
+			if c == ']' {
+				inSection = false
+			}
+		case c == '[':
+			inSection = true
+		case c == ' ' || c == '(' || c == ')':
+			flush(i)
+			start = i + 1
+		}
+	}
+	flush(len(items))
+	return out
+}
+
+// parseFetchItem reads one token of the item list: name, optional [section],
+// optional <start.length>. A range that is not two unsigned numbers is ignored.
+func parseFetchItem(tok string) fetchItem {
+	open := strings.IndexByte(tok, '[')
+	if open == -1 {
+		return fetchItem{name: asciiUpper(tok)}
+	}
+	it := fetchItem{name: asciiUpper(tok[:open]), hasSection: true}
+	rest := tok[open+1:]
+	end := strings.IndexByte(rest, ']')
+	if end == -1 {
+		// unterminated section: everything after the bracket
+		it.section = rest
+		return it
+	}
+	it.section = rest[:end]
+	rng := rest[end+1:]
+	if len(rng) >= 2 && rng[0] == '<' && rng[len(rng)-1] == '>' {
+		var startPos, length int
+		if n, err := fmt.Sscanf(rng[1:len(rng)-1], "%d.%d", &startPos, &length); err == nil && n == 2 && startPos >= 0 && length >= 0 {
+			it.partial, it.start, it.length = true, startPos, length
+		}
+	}
+	return it
+}
+
+// headerFieldNames returns the upper-cased field names of a section
+// HEADER.FIELDS (name ...); without a field list the default set is used.
+func headerFieldNames(section string) []string {
+	requestedHeaders := []string{"FROM", "TO", "CC", "BCC", "SUBJECT", "DATE", "MESSAGE-ID", "PRIORITY", "X-PRIORITY", "REFERENCES", "NEWSGROUPS", "IN-REPLY-TO", "CONTENT-TYPE", "REPLY-TO"}
+	open := strings.IndexByte(section, '(')
+	if open == -1 {
+		return requestedHeaders
+	}
+	fieldsStr := section[open+1:]
+	if closeParen := strings.IndexByte(fieldsStr, ')'); closeParen != -1 {
+		fieldsStr = fieldsStr[:closeParen]
+		fields := strings.Fields(fieldsStr)
+		if len(fields) > 0 {
+			requestedHeaders = []string{}
+			for _, f := range fields {
+				requestedHeaders = append(requestedHeaders, asciiUpper(f))
+			}
+		}
+	}
+	return requestedHeaders
+}
+
+// selectHeaderFields returns the header lines of msg whose field name is one
+// of requestedHeaders (in that order), followed by the blank line.
+func selectHeaderFields(msg string, requestedHeaders []string) string {
+	headersMap := map[string]string{}
+	lines := strings.Split(msg, "\r\n")
+	currentHeader := ""
+	for _, line := range lines {
+		if line == "" {
+			break // End of headers
+		}
+		// Check if this is a continuation line (starts with space or tab)
+		if len(line) > 0 && (line[0] == ' ' || line[0] == '\t') {
+			if currentHeader != "" {
+				headersMap[currentHeader] += "\r\n" + line
+			}
+			continue
+		}
+		// New header line
+		colonIdx := strings.Index(line, ":")
+		if colonIdx != -1 {
+			headerName := strings.ToUpper(strings.TrimSpace(line[:colonIdx]))
+			for _, h := range requestedHeaders {
+				if headerName == h {
+					currentHeader = h
+					headersMap[h] = line
+					break
+				}
+			}
+		}
+	}
+
+	// Build response with requested headers in order
+	var headerLines []string
+	for _, h := range requestedHeaders {
+		if val, ok := headersMap[h]; ok {
+			headerLines = append(headerLines, val)
+		}
+	}
+	headersStr := strings.Join(headerLines, "\r\n")
+	if len(headersStr) > 0 {
+		headersStr += "\r\n"
+	}
+	headersStr += "\r\n" // Final blank line
+	return headersStr
 }
 
 // asciiUpper upper-cases the ASCII letters of s and leaves every other byte
@@ -598,27 +546,6 @@ func slicePartial(data string, start, length int) string {
 		length = len(data) - start
 	}
 	return data[start : start+length]
-}
-
-// partialAfter returns the partial range <start.length> written directly
-// after the first of the given item names in itemsUpper, e.g. the 0 and 2048
-// of BODY.PEEK[]<0.2048>. ok is false when the item carries no such range.
-func partialAfter(itemsUpper string, names ...string) (start, length int, ok bool) {
-	for _, name := range names {
-		idx := strings.Index(itemsUpper, name+"<")
-		if idx == -1 {
-			continue
-		}
-		rest := itemsUpper[idx+len(name)+1:]
-		end := strings.Index(rest, ">")
-		if end == -1 {
-			continue
-		}
-		if _, err := fmt.Sscanf(rest[:end], "%d.%d", &start, &length); err == nil {
-			return start, length, true
-		}
-	}
-	return 0, 0, false
 }
 
 // HasSignedPartial reports whether a FETCH item list contains a partial
